@@ -121,6 +121,8 @@ def controls(which):
             discipline.banned_calls(s, F, "ctl", {"std::io::Read::read"}, [_control(F, "control_short_read")], "")
         elif w == "dropped_error":
             discipline.check(s, F, "ctl", [_control(F, "control_dropped_error")])
+        elif w in ("fold_drops_error", "count_discards"):
+            discipline.check_accumulators(s, F, "ctl", [_control(F, "control_" + w)])
         elif w == "ok_swallow":
             discipline.check(s, F, "ctl", [_control(F, "control_ok_swallow")])
         elif w in ("tainted_mul", "tainted_alloc", "unwrap"):
